@@ -127,7 +127,7 @@ def main():
             "guard": "--cfg oxidize_pdf_verif",
             "enable": "RUSTFLAGS='--cfg oxidize_pdf_verif' via /verif/sim/.cargo/config.toml; the shadow manifest /verif/sim/shadow/Cargo.toml (generated by bin/gen_shadow.py) compiles /repo/oxidize-pdf-core/src/lib.rs in place and adds the verif_shim dependency",
             "baseline_off_cmd": baseline,
-            "source_commits": ["d97bac49"],
+            "source_commits": ["d97bac49", "2fe6b2ec"],
             "add_only": True,
         },
         "engines": [
